@@ -4,8 +4,8 @@
 //
 // States: every distinct state of one snap reachable with at most D operations of the generating alphabet
 // (breadth-first, replay from a fresh fixture, deduplicated on the canonical state key).
-// Cases: in every state, every operation under test (install / refresh to a new revision / refresh to each
-// kept revision / revert to each kept revision, with and without flag+channel changes) × every failure
+// Cases: in every state, every operation under test (install / refresh to a new revision / sideload from a
+// local file / refresh to each kept revision / revert to each kept revision, with and without flag+channel changes) × every failure
 // point (an error-trigger task spliced after the first k tasks of the generated change, for every k up to
 // the check-rerefresh task; plus the mid-task failures the fake backend can inject).
 // Oracle: the change ends in Error and the recorded state (fields of the statement), the configuration and
@@ -140,7 +140,7 @@ func c10Phase(op vOp, res vRes) string {
 func c10OpsUnderTest(a vSnap, thorough bool) []vOp {
 	var ops []vOp
 	if !a.Installed {
-		return []vOp{{K: "install"}, {K: "install", Dv: true, Ch: "other-channel", IV: true}}
+		return []vOp{{K: "install"}, {K: "install", Dv: true, Ch: "other-channel", IV: true}, {K: "sideload"}}
 	}
 	ci := vIndexOf(a.Seq, a.Cur)
 	if thorough {
@@ -157,6 +157,9 @@ func c10OpsUnderTest(a vSnap, thorough bool) []vOp {
 		ops = append(ops, vOp{K: "refresh-kept", P: p, Ch: "other-channel", IV: true, Dv: true})
 		ops = append(ops, vOp{K: "revert-to", P: p}, vOp{K: "revert-to", P: p, NB: true})
 	}
+	// refresh from a local file, no revision given: snapd numbers it (x1, x2, …) in prepare-snap, after the
+	// change was planned
+	ops = append(ops, vOp{K: "sideload", Dv: true})
 	return ops
 }
 
@@ -164,7 +167,7 @@ func c10Triggers(kind string) []string {
 	switch kind {
 	case "install":
 		return []string{"link", "copy", "op:setup-profiles:Doing", "op:auto-connect:Doing", "op:update-aliases", "op:setup-snap-save-data"}
-	case "refresh-new", "refresh-kept":
+	case "refresh-new", "refresh-kept", "sideload":
 		return []string{"link", "copy", "op:setup-profiles:Doing", "op:auto-connect:Doing", "op:update-aliases", "op:setup-snap-save-data", "op:unlink-snap", "op:remove-snap-aliases"}
 	case "revert-to", "revert":
 		return []string{"link", "op:setup-profiles:Doing", "op:auto-connect:Doing", "op:update-aliases", "op:unlink-snap", "op:remove-snap-aliases"}
@@ -439,11 +442,15 @@ func (s *verifC10Suite) TestVerifC10(c *C) {
 	}
 	rootKept4 := []vOp{{K: "set-retain", V: "4"}, {K: "install"}, {K: "refresh-new"}, {K: "refresh-new"}, {K: "refresh-new"}, {K: "set-retain", V: ""}}
 	rootConfig := []vOp{{K: "install"}, {K: "set-config"}, {K: "refresh-new"}, {K: "set-config"}}
+	// sideloaded (local) revisions: x1, x2 kept with x1 current; a local revision kept below a store revision
+	// (the generating alphabets themselves stay store-only: local x store shapes would multiply the state count)
+	rootLocal := []vOp{{K: "sideload"}, {K: "sideload"}, {K: "revert-to", P: 0}}
+	rootLocalStore := []vOp{{K: "sideload"}, {K: "refresh-new"}}
 	var plans []genPlan
 	if r.Quick() {
-		plans = []genPlan{{"kept4-retain-lowered", rootKept4, true, 1}, {"config-per-revision", rootConfig, false, 0}, {"full", nil, false, 3}}
+		plans = []genPlan{{"kept4-retain-lowered", rootKept4, true, 1}, {"config-per-revision", rootConfig, false, 0}, {"local-revisions", rootLocal, true, 0}, {"local-below-store", rootLocalStore, true, 0}, {"full", nil, false, 3}}
 	} else {
-		plans = []genPlan{{"full", nil, false, 5}, {"shape", nil, true, 7}}
+		plans = []genPlan{{"full", nil, false, 5}, {"shape", nil, true, 7}, {"local-revisions", rootLocal, true, 2}, {"local-below-store", rootLocalStore, true, 2}}
 	}
 	if v := os.Getenv("VERIF_C10_DEPTH"); v != "" { // calibration aid: "full,shape" depths from the empty root
 		var d1, d2 int
